@@ -5,8 +5,8 @@ META = {
     "explanation": "Order copy ≺ commit ≺ tar in archive.main (AR1), the selection queries and the 2×2 query table (SQL2), column order "
                    "agreement SELECT = INSERT = row decoding (VI2), once-only traversal of the closure (W1 at TaskType.traverse), one "
                    "directory-name helper on both sides (NAME1), archive is read-only on the project (AR2, VI1), restore loads and copies "
-                   "every row of the archive index (RS4).",
-    "rules": ["AR1", "AR3", "SQL2", "VI2", "W1(traverse)", "NAME1", "AR2", "VI1", "RS4"],
+                   "every row of the archive index (RS4). No implicit commits on the project connection (VI7).",
+    "rules": ["AR1", "AR3", "SQL2", "VI2", "W1(traverse)", "NAME1", "AR2", "VI1", "RS4", "VI7"],
     "assumptions": ["byte-identical trees are delegated to tar and shutil.copytree"],
     "trusted": ["ast parser", "SQL subset reader"],
 }
@@ -21,3 +21,5 @@ def run(A, rep, tier):
     AR.rule_name1(A, rep)
     V.rule_vi1(A, rep)
     AR.rule_rs1(A, rep)
+    # a restore that stops part-way leaves nothing recorded: one transaction, never switched to autocommit
+    V.rule_vi7(A, rep)
